@@ -95,7 +95,15 @@ pub fn dispatch(op: &str, a: &[&str]) -> Option<Ans> {
                         }
                         _ => "so=n/a".to_string(),
                     };
-                    (format!("ok {} verify={}{} {} {} {}", hex(&hash), res(&v1), res(&v2), rt, sv, s), "n/a".into())
+                    // what libsodium's crypto_pwhash gives for exactly the requested parameters, rendered the same way
+                    let expect = if salt.len() == 16 && hl >= 16 && mem >= 8192 && ops >= 1 {
+                        let mut sh = vec![0u8; hl];
+                        let r = unsafe { so::crypto_pwhash(sh.as_mut_ptr(), hl as u64, pwd.as_ptr() as *const _, pwd.len() as u64, salt.as_ptr(), ops, mem, 2) };
+                        if r == 0 {
+                            format!("ok {} verify=okerr rt {} $argon2id$v=19$m={},t={},p=1${}${}", hex(&sh), sv, mem / 1024, ops, b64_nopad(&salt), b64_nopad(&sh))
+                        } else { "n/a".into() }
+                    } else { "n/a".into() };
+                    (format!("ok {} verify={}{} {} {} {}", hex(&hash), res(&v1), res(&v2), rt, sv, s), expect)
                 }
             }
         }
@@ -204,4 +212,18 @@ pub fn dispatch(op: &str, a: &[&str]) -> Option<Ans> {
         }
         _ => return None,
     })
+}
+
+
+fn b64_nopad(b: &[u8]) -> String {
+    const T: &[u8; 64] = b"ABCDEFGHIJKLMNOPQRSTUVWXYZabcdefghijklmnopqrstuvwxyz0123456789+/";
+    let mut o = String::new();
+    for ch in b.chunks(3) {
+        let n = (ch[0] as u32) << 16 | (*ch.get(1).unwrap_or(&0) as u32) << 8 | *ch.get(2).unwrap_or(&0) as u32;
+        o.push(T[(n >> 18) as usize & 63] as char);
+        o.push(T[(n >> 12) as usize & 63] as char);
+        if ch.len() > 1 { o.push(T[(n >> 6) as usize & 63] as char); }
+        if ch.len() > 2 { o.push(T[n as usize & 63] as char); }
+    }
+    o
 }
